@@ -30,6 +30,7 @@ Atoms ==
      nan |-> [ty |-> "float"], nan2 |-> [ty |-> "float"], inf |-> [ty |-> "float"], ninf |-> [ty |-> "float"],
      sa |-> [ty |-> "str"], sempty |-> [ty |-> "str"], ssurr |-> [ty |-> "str"], snonbmp |-> [ty |-> "str"],
      ssurr2 |-> [ty |-> "str"],      \* lone surrogate + a character printable only from Unicode 13 on
+     spair |-> [ty |-> "str"],       \* high surrogate + low surrogate as two code points
      s1 |-> [ty |-> "str"],          \* the string "1"
      ba |-> [ty |-> "bytes"], bempty |-> [ty |-> "bytes"],
      none |-> [ty |-> "none"], ellipsis |-> [ty |-> "ellipsis"]]
@@ -76,7 +77,7 @@ ToJson(t) ==
         CASE Atoms[a].ty = "int" -> (IF a \in {"ibig1", "inbig1", "ihuge"} THEN Obj1("int", <<"s", a>>) ELSE <<"i", a>>)
           [] Atoms[a].ty = "bool" -> <<"b", a>>
           [] Atoms[a].ty = "float" -> JsonOfFloat(a)
-          [] Atoms[a].ty = "str" -> (IF a \in {"ssurr", "ssurr2"} THEN Obj1("string", <<"s", "repr:" \o a>>) ELSE <<"s", a>>)
+          [] Atoms[a].ty = "str" -> (IF a \in {"ssurr", "ssurr2", "spair"} THEN Obj1("string", <<"s", "repr:" \o a>>) ELSE <<"s", a>>)
           [] Atoms[a].ty = "bytes" -> Obj1("bytes", <<"s", "b64:" \o a>>)
           [] Atoms[a].ty = "none" -> <<"n", "none">>
           [] OTHER -> Obj1("type", <<"s", "ellipsis">>)
